@@ -369,6 +369,48 @@ def activation_race_part(ctx, rp):
                    'all schedules up to 6 steps (%d runs)' % n, 'tie', True, '')
 
 
+def run_with_waits(rp, waits, ends):
+    """the application waits (briefly) for its pilot to reach some state - Pilot.wait with an explicit state, an ordinary
+    API call - and then the pilot goes through its states (real PilotManager._update_pilot, the real task manager callback
+    registered on the real Pilot).  Returns the task's state after every update."""
+    from props import c14
+    pm = c14.make_pmgr(rp)
+    p  = c14.make_pilot(rp, pm, 'pilot.0000', 'NEW')
+    tm = stubs.make_tmgr(rp)
+    t  = stubs.make_task(rp, tm, 'task.000000', 'AGENT_EXECUTING', pilot='pilot.0000')
+    p._callbacks[rp.constants.PILOT_STATE]['tmgr'] = {'cb': tm._pilot_state_cb, 'cb_data': None}
+    errs, trace = [], []
+    for st in waits:
+        try: p.wait(state=st, timeout=0.001)
+        except Exception as e: errs.append('wait:' + type(e).__name__)
+    for st in ends:
+        try: pm._update_pilot({'uid': 'pilot.0000', 'state': st, 'type': 'pilot'})
+        except Exception as e: errs.append(type(e).__name__)
+        trace.append([st, p.state, t.state])
+    return trace, errs
+
+
+def waits_part(ctx, rp):
+    n = 0
+    for waits in ([], ['PMGR_ACTIVE'], [['PMGR_ACTIVE_PENDING', 'PMGR_ACTIVE']], ['PMGR_LAUNCHING'], ['DONE']):
+        for final in ('FAILED', 'CANCELED', 'DONE'):
+            trace, errs = run_with_waits(rp, waits, ['PMGR_LAUNCHING', 'PMGR_ACTIVE', final])
+            n += 1
+            ctx.case({'waits': waits, 'final': final}, nontrivial=bool(waits))
+            bad = None
+            if errs: bad = 'raised: %s' % errs
+            else:
+                for st, pst, tst in trace[:-1]:
+                    if tst != 'AGENT_EXECUTING':
+                        bad = 'the pilot became %s (no end) and its task is %s' % (st, tst); break
+                if not bad and (trace[-1][1] != final or trace[-1][2] != 'FAILED'):
+                    bad = 'the pilot was reported %s: the pilot object is %s, its task %s' % (final, trace[-1][1], trace[-1][2])
+            if bad:
+                ctx.fail('waiting-for-a-pilot-state-changes-what-ends-a-pilot', 'after Pilot.wait(%s): %s (trace %s)' % (waits, bad, trace),
+                         {'pilot_waits': {'waits': waits, 'final': final}})
+    ctx.obligation('Pilot.wait for explicit states before the pilot runs through its states: only its end fails its tasks (%d runs)' % n, 'tie', True, '')
+
+
 def contended_part(ctx, rp):
     import itertools
     n = 0
@@ -486,6 +528,7 @@ def run(ctx):
     contended_part(ctx, rp)
     submit_race_part(ctx, rp)
     activation_race_part(ctx, rp)
+    waits_part(ctx, rp)
     tsts = [s for s in rp.states._task_state_values if s is not None]
     psts = [s for s in rp.states._pilot_state_values if s is not None]
     cases = list(CORPUS)
@@ -567,6 +610,11 @@ def replay(ctx, data):
                 if j in dead and (ts != 'FAILED' or 'pilot.%04d' % j not in str(det)): ok = False
                 if j not in dead and ts != ('TMGR_STAGING_INPUT_PENDING' if j in start else 'AGENT_EXECUTING'): ok = False
         return ok
+    if 'pilot_waits' in inp:
+        w = inp['pilot_waits']
+        trace, errs = run_with_waits(rp, w['waits'], ['PMGR_LAUNCHING', 'PMGR_ACTIVE', w['final']])
+        print(trace, errs)
+        return not errs and all(x[2] == 'AGENT_EXECUTING' for x in trace[:-1]) and trace[-1][1] == w['final'] and trace[-1][2] == 'FAILED'
     if 'activation_race' in inp:
         pst, tasks, errs = run_activation_race(rp, inp['activation_race']['choices'], inp['activation_race']['final'])
         print(pst, tasks, errs)
